@@ -192,15 +192,13 @@ func MonitorC16(c *Case, obs []Obs) (fails []Failure, facts map[int]*entryFacts,
 			if o.E >= 0 && o.E < len(ents) && ents[o.E].entered && !ents[o.E].exited {
 				e := ents[o.E]
 				e.exited = true
-				hp := false
+				// every handler runs, in registration order, whatever the others do: returning an error
+				// or panicking (recovered per handler since a9e6cc9) neither stops the loop nor the
+				// chain's exit - an admitted entry is completed exactly once whatever its handlers do
 				for _, h := range e.handlers {
 					want = append(want, Call{K: "handler", ID: h.HID})
-					if h.HB == "panic" {
-						hp = true
-						break
-					}
 				}
-				if !hp && e.passed {
+				if e.passed {
 					for _, s := range sortedKind(&c.Chains[e.chain], "stat") {
 						if s.s.Real {
 							continue
